@@ -97,6 +97,20 @@ void fpBin(const json &in, json &out) {
           cmpSpline(acc, a + b, in.at("E").at("add"), in.at("S").at("add"), "add");
           cmpSpline(acc, a - b, in.at("E").at("sub"), in.at("S").at("sub"), "sub");
           cmpSpline(acc, a * b, in.at("E").at("mul"), in.at("S").at("mul"), "mul");
+          {
+            // splines that denote zero but carry signed zeros (C15: isZero is true exactly when the spline
+            // evaluates to zero everywhere)
+            const F z = static_cast<F>(0);
+            acc.zero((a * z).isZero());
+            acc.zero((a * (-z)).isZero());
+            acc.zero((-(a * z)).isZero());
+            acc.zero((z * b).isZero());
+            acc.zero((a - a).isZero());
+            Spline<F, oa> t(a);
+            t *= -z;
+            acc.zero(t.isZero());
+            acc.zero(((a * z) + (b * (-z))).isZero());
+          }
 #ifndef VH_NO_EXACT_TWIN
           try {  // second pass with full-mantissa coefficients (see vh_fp.h)
             const Grid<Rat> gr = mkGrid<Rat>(ja.at("g"));
